@@ -61,6 +61,11 @@ def build_models(dsc):
     return Ext().eval(), Head
 
 
+def _np_to_t(a):
+    import torch
+    return torch.tensor(np.asarray(a, dtype=np.float32))
+
+
 def maxdev(a, b):
     a, b = np.asarray(a), np.asarray(b)
     if a.shape != b.shape:
@@ -243,6 +248,54 @@ def run_case(ctx, dsc):
         s = cr.sensitivity
         ctx.check_prop("sensitivity-stored", s is not None and maxdev(s.importances, imp_b if ok else imp) <= 1e-3 * scale,
                        dsc)
+    # ---- added after seeded changes were missed --------------------------------------------------------
+    cr.batch_size = bs
+    if spatial:
+        # (a) a head that USES the spatial structure (row-dependent weights): exchanging the two spatial axes
+        #     of the perturbed activations changes its logits when the activation map is not square
+        import torch as _t
+        from xplique.attributions.global_sensitivity_analysis import JansenEstimator
+
+        class RowHead(_t.nn.Module):
+            def forward(self, a):                      # a: (M, C, h, w)
+                a = a.float()
+                roww = _t.linspace(1.0, 3.0, a.shape[2])
+                pooled = (a * roww[None, None, :, None]).mean((2, 3))
+                return pooled @ _t.tensor(wh, dtype=_t.float32).T + _t.tensor(b0, dtype=_t.float32)
+        cr.latent_to_logit_model = RowHead().eval()
+        ok, imp_r = ctx.impl_call(dsc, importance, signature="spatial-head")
+        if ok:
+            tt = np.asarray(t, dtype=np.float64)       # (nin, h, w, r) validated above against the NMF of the activations
+            hh = tt.shape[1]
+            roww = np.linspace(1.0, 3.0, hh)
+            msk = np.asarray(HaltonSequenceRS()(r, nd), dtype=np.float64)
+            ref = []
+            for coeff in tt:
+                a = (coeff[None] * msk[:, None, None, :]) @ bank            # (M, h, w, C)
+                pooled = (a * roww[None, :, None, None]).mean((1, 2))
+                y = pooled @ wh[cid].astype(np.float64) + float(b0[cid])
+                ref.append(np.asarray(JansenEstimator()(msk, y.astype(np.float32), nd), dtype=np.float64))
+            ref = np.mean(ref, 0)
+            if np.all(np.isfinite(ref)) and float(np.ptp(ref)) > 1e-4:
+                sc = max(1.0, float(np.abs(ref).max()))
+                ctx.count("spatial_head_cases", "h!=w" if tt.shape[1] != tt.shape[2] else "h==w")
+                ctx.check_prop("importance-is-jansen-spatial-head", bool(np.allclose(imp_r, ref, rtol=5e-3, atol=5e-4 * sc)), dsc,
+                               {"got": np.asarray(imp_r).tolist(), "reference": ref.tolist(), "activation_hw": list(tt.shape[1:3])})
+        cr.latent_to_logit_model = head
+    if not local:
+        # (b) re-fit on another dataset: global importances must be those of the NEW dataset
+        imgs_b = _np_to_t(np.ascontiguousarray(imgs_np[::-1] * 0.5 + 0.25))
+        ok, _ = ctx.impl_call(dsc, lambda: cr.fit(imgs_b, class_id=cid), signature="refit")
+        if ok:
+            cr.latent_to_logit_model = head
+            ok1, g = ctx.impl_call(dsc, lambda: cr.estimate_importance(nb_design=nd), signature="refit-importance")
+            ok2, e = ctx.impl_call(dsc, lambda: cr.estimate_importance(inputs=imgs_b, nb_design=nd), signature="refit-importance")
+            if ok1 and ok2 and np.all(np.isfinite(e)):
+                sc = max(1.0, float(np.abs(e).max()))
+                ctx.count("refit_cases")
+                ctx.check_prop("importance-after-refit-uses-new-dataset", bool(np.allclose(g, e, rtol=2e-3, atol=1e-4 * sc)), dsc,
+                               {"global_after_refit": np.asarray(g).tolist(), "explicit_new_dataset": np.asarray(e).tolist()})
+
 
 
 def gen_cases(ctx):
